@@ -21,7 +21,13 @@ The oracle is also evaluated (a) with the READING process configured differently
 (b) as a STATE PROBE: every document is read a second time in the same process after the first result was
 modified (uuid, version, repository, a file added, aggregate called again) - what a read yields is determined
 by the document alone - and written a second time from the same object, and (c) on SIZE LADDERS (10^2..10^4
-files, 10^3..10^6 characters in one string, 10^2..10^5 measurements in one file, nesting depth)."""
+files, 10^3..10^6 characters in one string, 10^2..10^5 measurements in one file, nesting depth).
+Round 5: (d) COLLECTION SIZES - the members of every collection of the document (measurements of a file, entries of a
+folder, files, languages, folders in the root) get their own ladder, plus the rungs n-1, n, n+1, 2n of every integer
+literal that is new in the source under check (harness/gen/srcdict.py); (e) VALUE SHAPES - the identifier-like string
+fields (uuid, version, timestamp, root, repository, checksum, language, unit name) take every spelling such a field
+admits (harness/h4_round5.identifier_shapes: canonical / upper-case / braced / urn: / bare-hex UUIDs, digests, numbers,
+versions, dates, refs, whitespace around, novel source literals)."""
 import json
 import os
 import sys
@@ -29,6 +35,7 @@ import sys
 sys.path.insert(0, os.path.dirname(os.path.dirname(os.path.abspath(__file__))))
 import common
 import h4_support as h4
+import h4_round5 as r5
 
 ID = "C08"
 TRUSTED = [
@@ -379,6 +386,36 @@ def gen_spec(rnd, pairs=False, nfiles=None):
     return spec
 
 
+def gen_shaped_spec(rnd):
+    """a small report whose identifier-like string fields (uuid, version, timestamp, root, repository owner / name /
+    branch, checksum, language, unit name) are spelled in the shapes such fields take in the wild (r5.identifier_shapes):
+    canonical / upper-case / braced / urn: UUIDs, bare hex digests, numbers, versions, dates, whitespace around, ..."""
+    spec = gen_spec(rnd, nfiles=rnd.choice([0, 1, 1, 2]))
+    shapes = r5.identifier_shapes(rnd)
+
+    def shape():
+        return break_pairs(cps(rnd.choice(shapes)))
+    spec["uuid"] = shape()
+    if rnd.random() < 0.5:
+        spec["version"] = shape()
+    if rnd.random() < 0.5:
+        spec["timestamp"] = shape()
+    if rnd.random() < 0.4:
+        spec["root"] = shape()
+    if rnd.random() < 0.5:
+        spec["repository"] = (shape(), shape(), shape() if rnd.random() < 0.8 else None, None)
+    files = []
+    for (path, checksum, language, loc, ms) in spec["files"]:
+        if rnd.random() < 0.6:
+            checksum = shape()
+        if rnd.random() < 0.3:
+            language = shape()
+        ms = [((shape() if rnd.random() < 0.4 else m[0]),) + tuple(m[1:]) for m in ms]
+        files.append((path, checksum, language, loc, ms))
+    spec["files"] = files
+    return spec
+
+
 def gen_long(rnd, n, nosep=False):
     l = [gen_cp(rnd) for _ in range(n)]
     if nosep:
@@ -438,8 +475,27 @@ def ladder_specs(ctx):
         if where == "owner":
             s["repository"] = (long, cps("n"), cps("b"), None)
         out.append(("%d characters in the %s" % (n, where), s))
-    for n in ctx.pick([100, 10 ** 4], [100, 10 ** 3, 10 ** 4, 10 ** 5]):
+    # the MEMBERS of every collection of the document (measurements of a file, entries of a folder, files, languages,
+    # folders): base rungs + n-1, n, n+1, 2n for every integer literal that is new in the source under check
+    hi = ctx.pick(10 ** 4, 10 ** 5)
+    for n in r5.rungs(ctx.pick([100, 10 ** 4], [100, 10 ** 3, 10 ** 4, 10 ** 5]), 2, ctx.pick(2 * 10 ** 4, 10 ** 5)):
         out.append(("%d measurements in one file" % n, base([(cps("a/b.py"), cps("00"), cps("Python"), n, meas(n))])))
+    for n in r5.rungs(ctx.pick([100, 1000], [100, 1000, 10 ** 4, 10 ** 5]), 2, hi):
+        fs, seen = [], set()
+        for i in range(n):
+            # the number ends the name, after a separator no generated string contains: the n paths are pairwise distinct
+            path = tuple(break_pairs(cps("d/") + ([c for c in gen_str(rnd, 3, nosep=True) if c != 0x23] if i % 50 == 0 else []) + cps("#f%d" % i)))
+            assert path not in seen
+            seen.add(path)
+            fs.append((list(path), cps("00"), cps("C"), 1, meas(i % 2)))
+        out.append(("%d files in one folder" % n, base(fs)))
+    for n in r5.rungs(ctx.pick([100, 1000], [100, 1000, 10 ** 4]), 2, hi):
+        # exactly n languages, n folders below the root and n files, interleaved
+        out.append(("%d languages, %d folders in the root" % (n, n),
+                    base([(cps("p%d/f.x" % i), cps("00"), cps("Lang%d" % i), i % 90, meas(i % 2)) for i in range(n)])))
+    for n in r5.novel_only(2, hi):
+        # exactly n files in all, spread over few folders, one language (only the files collection has n members)
+        out.append(("%d files in all" % n, base([(cps("q%d/g%d.c" % (i % 7, i)), cps("00"), cps("C"), 2, []) for i in range(n)])))
     for depth in ctx.pick([50, 150], [50, 150, 300]):
         comps = [rnd.choice(["a", "b", "src"]) for _ in range(depth)]
         files = [(cps("/".join(comps[:d] + ["f.py"])), cps("00"), cps("C"), 1, meas(1)) for d in (depth, depth // 2, 0)]
@@ -825,6 +881,10 @@ def correspond(ctx):
     specs = [{"root": cps("/"), "files": [], "repository": None, "version": "default", "uuid": None, "timestamp": None}]
     specs += [gen_spec(rnd, nfiles=rnd.choice([0, 1, 2])) for _ in range(nrep // 3)]
     specs += [gen_spec(rnd) for _ in range(nrep - nrep // 3)]
+    srnd = ctx.rng("shaped")
+    n_shaped = ctx.pick(40, 400)
+    specs += [gen_shaped_spec(srnd) for _ in range(n_shaped)]
+    dist["shaped_reports"] = n_shaped
     pair_specs = [gen_spec(ctx.rng("pairs", i), pairs=True, nfiles=2) for i in range(ctx.pick(15, 150))]
     loads_texts = []           # (origin, text)
     read_texts = []            # (origin, text)
@@ -914,6 +974,34 @@ def correspond(ctx):
                 if val is not None:
                     for what, v2 in structural_faults(trnd, val, ctx.pick(8, 30)):
                         read_texts.append((what, json.dumps(v2), spec))
+    # ---- value shapes: every shape in the uuid (and one other field) of a small report, oracle only
+    shrnd = ctx.rng("shapes-sweep")
+    shapes = r5.identifier_shapes(shrnd)
+    dist["identifier_shapes"] = len(shapes)
+    for k, sh in enumerate(shapes * ctx.pick(1, 4)):
+        spec = gen_spec(shrnd, nfiles=shrnd.choice([0, 1]))
+        val = break_pairs(cps(sh))
+        spec["uuid"] = val
+        other = shrnd.choice(["version", "timestamp", "root", "checksum", "owner", "branch", None])
+        if other in ("version", "timestamp", "root"):
+            spec[other] = val
+        elif other == "checksum" and spec["files"]:
+            f = spec["files"][0]
+            spec["files"][0] = (f[0], val, f[2], f[3], f[4])
+        elif other in ("owner", "branch"):
+            spec["repository"] = (val, cps("n"), cps("b"), None) if other == "owner" else (cps("o"), cps("n"), val, None)
+        evals += 1
+        bad = oracle_report(spec, probes=False)
+        if bad:
+            if sum(1 for f in fails if "shape" in f["input"]) < 3:
+                spec = shrink_spec(spec, lambda c: bool(oracle_report(c, probes=False)))
+                for fld in ("version", "timestamp"):
+                    c = dict(spec, **{fld: None})
+                    if oracle_report(c, probes=False):
+                        spec = c
+                bad = oracle_report(spec, probes=False) or bad
+            fails.append({"input": {"stream": "report", "spec": spec, "shape": sh, "also_in": other}, "observed": bad,
+                          "required": "valid JSON in both forms, same value, lossless read-back, stable rewrite"})
     # ---- size ladders: the property directly (oracle incl. the second-read probe), failing inputs shrunk
     dist["ladder"] = {}
     for label, spec in ladder_specs(ctx):
@@ -1002,7 +1090,7 @@ def correspond(ctx):
                           "required": "ReportReader.get_report_version(text) == json.loads(text)['version']"})
     return {
         "evaluations": evals, "distinct_nontrivial": len(nontrivial),
-        "rule": "dumps on every code point 0..0x2ff, every 0x101-th up to 0x10ffff, surrogate/plane boundaries and random strings; "
+        "rule": ("dumps on every code point 0..0x2ff, every 0x101-th up to 0x10ffff, surrogate/plane boundaries and random strings; "
                 "%d random reports (codebase built by the real add_file/aggregate; depth <= 4 with shared folders; quotes, backslashes, controls, NUL, DEL, "
                 "non-ASCII, astral, lone surrogates in every string field; repository/version present or absent) x pretty/compact: writer text, "
                 "json.loads on the documents, on truncations (every offset for the first small ones, stratified otherwise), on character mutations and on "
@@ -1010,8 +1098,12 @@ def correspond(ctx):
                 "each document after the first result was modified and a second write of the same object; each report re-read under 3 (thorough 4) "
                 "configurations of the reading process (Configuration.repository / verbose / exclude patterns / all); size ladders through the oracle: "
                 "10^2, 10^3 (thorough ..10^5) files, 10^3, 10^5 (..10^6) characters in one string field, 10^2, 10^4 (..10^5) measurements in one file, "
-                "depth 50, 150 (300); non-trivial = documents with >= 1 file and "
-                "distinct accepted non-document texts" % dist["reports"],
+                "depth 50, 150 (300), 10^2, 10^3 (..10^5) files in ONE folder, 10^2, 10^3 (..10^4) languages = folders in the root; every collection-size "
+                "ladder additionally gets the rungs n-1, n, n+1, 2n (and `n files in all`) of every integer literal that is new in the source under check (" + str(r5.novel_only(2, 10 ** 6)[:8] or "none on this tree") + "); "
+                "value shapes: " + str(dist.get("shaped_reports", 0)) + " reports through all comparisons and every one of " + str(dist.get("identifier_shapes", 0)) + " identifier spellings "
+                "(canonical / upper-case / braced / urn: / bare-hex UUIDs, digests, numbers, versions, dates, refs, whitespace around, novel source literals) as uuid "
+                "and in one other string field through the oracle; non-trivial = documents with >= 1 file and "
+                "distinct accepted non-document texts") % dist["reports"],
         "samples": samples, "exhaustive": False, "distribution": dist,
         "disagreements": dis[:50], "oracle_failures": fails[:50],
     }
